@@ -2,7 +2,7 @@
    a later change of a statement there makes this file fail). *)
 From Coq Require Import List ZArith String Bool Arith.
 Import ListNotations.
-From NV Require Import Delayed.Model Delayed.Spec Delayed.Tracked Props.C08.
+From NV Require Import Delayed.Model Delayed.Spec Delayed.Tracked Delayed.Rel Delayed.Main Delayed.Refuted Props.C08.
 
 Check (C08_pending_tracked_at : forall es p i,
   prim_array_at es p i =
@@ -38,3 +38,50 @@ Check (C08_pending_tracked_insert : forall k x fs v,
 Check (C08_pending_tracked_pipeline : forall ts es p v,
   run_pipeline ts (VArr es p) = Ok v ->
   exists es' p', v = VArr es' p' /\ view_arr v = spec_pipeline ts (view_arr (VArr es p))).
+Check (C08_observers_preserve_relation : forall (Hole : forall A : Type, res A -> Prop),
+    (forall A B (r : res A) (k : A -> res B), Hole A r -> Hole B (bind r k)) ->
+    (forall r : res tree, Hole tree r ->
+       Hole lval (match r with
+                  | Ok tr => Ok (tree_to_lval tr)
+                  | Err ENotExportable => Err ESerialize
+                  | Err e => Err e
+                  end)) ->
+    forall o, supported o -> forall t1 t2, RelT Hole t1 t2 -> RelT Hole (TObs o t1) (TObs o t2)).
+Check (C08_laziness : forall n k T o pos a,
+  supported o -> container_ok k ->
+  is_probe (run n (plug k pos AProbe) T o) = false ->
+  res_sim (run n (plug k pos AProbe) T o) (run n (plug k pos a) T o)).
+Check (C08_bottom_insensitive : forall n k T o pos a a',
+  supported o -> container_ok k ->
+  is_probe (run n (plug k pos AProbe) T o) = false ->
+  res_sim (run n (plug k pos a) T o) (run n (plug k pos a') T o)).
+Check (C08_reached_fails : forall n k o pos,
+  supported o -> container_ok k ->
+  reaches n k o pos = true -> run n (plug k pos AFail) None o = Err EFail).
+Check (C08_reached_blames : forall n k T o pos s,
+  wf_case k pos T = true -> supported o ->
+  reaches n k o pos = true ->
+  exists e, run n (plug k pos (AStr s)) (Some T) o = Err e /\ is_blame e = true).
+Check (C08_unreached_equals_unannotated : forall n k T o pos a,
+  wf_case k pos T = true -> supported o -> container_ok k ->
+  reaches n k o pos = false ->
+  res_sim (run n (plug k pos a) (Some T) o) (run n (plug k pos a) None o)).
+Check (C08_observe_blames_iff_reached : forall n k T o pos s,
+  wf_case k pos T = true -> supported o -> container_ok k ->
+  is_blame_res (run n (plug k pos (AStr s)) None o) = false ->
+  (is_blame_res (run n (plug k pos (AStr s)) (Some T) o) = true <-> reaches n k o pos = true)).
+Check (C08_func_wraps_call : forall n o d c arg,
+  eval (S n) (TObs (OCall arg) (TCtr (true, CFun d c) (TVal (Ok (VFun (FBase o))))))
+  = apply_ctr true c (eval n (TObs o (TCtr (false, d) (thunk_of_atom arg))))).
+Check (C08_func_domain_blames_iff_forced : forall n o s,
+  fn_scalar o ->
+  eval (S (S n)) (TObs (OCall (AStr s)) (TCtr (true, CFun CNum CDyn) (TVal (Ok (VFun (FBase o))))))
+  = Err EBlameNeg
+  <-> is_probe (eval (S (S n)) (TObs (OCall AProbe) (TVal (Ok (VFun (FBase o)))))) = true).
+Check (C08_concat_broken_refuted : exists n k T o pos s,
+    wf_case k pos T = true /\ reaches n k o pos = true /\
+    is_blame_res (run n (plug k pos (AStr s)) (Some T) o) = false).
+Check (C08_values_broken_refuted : exists fs, view_arr (prim_record_values_broken fs) <> map snd (sort_fields (view_rec (VRec fs)))).
+Check (C08_concat_label_refuted : exists (l : lit),
+    force 8 (TObs (OConcatL l) from_caller) = Err EBlame /\
+    force 8 (TObs OId from_caller) = Err EBlameNeg).
